@@ -59,7 +59,6 @@ void harness(void)
 		V_CHECK("success: parsed top-level list becomes the root's children (old ones merged first)", IMP(in_nc > 0, root.children == &h_n[0]) && IMP(in_nc == 0, root.children == (in_has_old ? &h_old : 0)));
 		V_CHECK("success: every parsed top-level node names the root as parent (nothing points into the dead frame)", IMP(in_k < in_nc, h_n[in_k].parent == &root));
 		V_CHECK("success: sibling links untouched", IMP(in_k < in_nc, h_n[in_k].next == (in_k + 1 < in_nc ? &h_n[in_k + 1] : 0) && h_n[in_k].prev == (in_k ? &h_n[in_k - 1] : 0)));
-		V_CHECK("success: merge only when both sides have nodes", g_moves == (in_has_old && in_nc > 0 ? 1 : 0) && g_clears_root == g_moves);
 	}
 	V_COVER("into an empty root", in_ret >= 0 && !in_has_old && in_nc == 2);
 	V_COVER("merged into existing children", in_ret >= 0 && in_has_old && in_nc == 2);
